@@ -317,6 +317,9 @@ NO_CATCH_OPS = ("set", "add", "sinsert", "insert", "del", "remove", "pop",
                 "spop", "popitem", "update", "supdate", "ior", "ctork")
 
 
+TYPEERROR_ONLY_OPS = ("in", "has_key")
+
+
 def _raiser(name):
     cls = EXC_CLASSES[name]
 
@@ -401,7 +404,13 @@ def _one(plan, dom, cfg, ctx, n, ncmp, L0, L1, baseline, tracked, h, base):
     c = _build(plan, dom)
     live = [(c, mapping)]
     excname = plan.get("exc", "own")
-    if opn not in NO_CATCH_OPS:
+    if opn in TYPEERROR_ONLY_OPS:
+        # membership tests turn an unusable KEY into "absent" (a TypeError
+        # of the key conversion) -- a TypeError out of a key COMPARISON is
+        # not theirs to swallow (seeded change C14-16)
+        if excname != "TypeError":
+            excname = "own"
+    elif opn not in NO_CATCH_OPS:
         excname = "own"
     want_exc = EXC_CLASSES[excname].__name__
     hook.arm(n, _raiser(excname))
